@@ -14,11 +14,32 @@
 // points at the surviving "T".
 #include "verif.h"
 #include "interrogateDatabase.h"
+// lookup() calls its freshen_* argument through a pointer to member function.  Across translation units the Itanium
+// "is it virtual" test on the function address and the indirect call stay in the IR and symbolic execution then runs all
+// six freshen functions under unknown conditions (no verdict); compiled in one unit with its inline callers
+// lookup_*_by_name the compiler resolves the member pointer (lookup is inlined into each caller).  The native replay
+// links the separately compiled interrogateDatabase.cxx as usual.
+#ifndef VERIF_NATIVE
+#include "interrogateDatabase.cxx"
+#endif
 #include <string>
 #include <vector>
 
+// Cut point: the by-name caches are std::map<std::string,int>; clear() frees the old nodes with the recursive
+// _Rb_tree::_M_erase.  Once a cache was filled under a symbolic condition its root is "node or null", and symbolic execution of
+// the real _M_erase then follows invalid-pointer reads down to the recursion bound (exponential, no verdict in 10 min).
+// It is replaced by "leak the nodes": clear() still resets the header with the real code; freeing has no observable effect.
+#ifndef VERIF_NATIVE
+typedef std::_Rb_tree<std::string, std::pair<const std::string, int>, std::_Select1st<std::pair<const std::string, int> >,
+                      std::less<std::string>, std::allocator<std::pair<const std::string, int> > > LookupTree;
+template<> void LookupTree::_M_erase(LookupTree::_Link_type) {}
+#endif
+
 #ifndef KIND
 #define KIND 7
+#endif
+#ifndef SYMASK
+#define SYMASK 1       // 1: which tables are consulted at the two earlier points is symbolic
 #endif
 #ifndef EARLY
 #define EARLY 1        // 1: also a symbolic round of lookups before the first file is loaded
@@ -128,7 +149,13 @@ extern "C" void harness_c13_lookups() {
   InterrogateDatabase *b = file_b();
   InterrogateDatabase *m = new_db();
   bool ask0[6], ask1[6], all[6];
-  for (int k = 0; k < 6; k++) { ask0[k] = EARLY ? nondet_bool() : false; ask1[k] = nondet_bool(); all[k] = true; }
+  for (int k = 0; k < 6; k++) {
+    ask0[k] = ask1[k] = all[k] = true;
+#if SYMASK
+    if (EARLY) ask0[k] = nondet_bool();
+    ask1[k] = nondet_bool();
+#endif
+  }
 
 #if EARLY
   ask_types(m, ask0, 0); ask_others(m, ask0, 0);
@@ -144,5 +171,27 @@ extern "C" void harness_c13_lookups() {
                        "C13 merge_from: the late file's manifest is enumerated and refers to the surviving type");
   if (KIND & 4) ASSERT(m->get_element(B_F)._type == A_T && m->get_num_global_elements() == 2 && m->get_global_element(1) == B_F,
                        "C13 merge_from: the late file's element is enumerated and refers to the surviving type");
+  WITNESS();
+}
+
+extern "C" void harness_c13_dbg() {
+  __ll2c_global_ctors();
+  InterrogateDatabase *db = new_db();
+#if DBG == 1
+  put_manifest(db, 2, 'm', 1);
+#elif DBG == 2
+  put_element(db, 2, 'm', 1);
+#elif DBG == 3
+  put_type(db, 2, 'm', 1);
+#elif DBG == 4
+  db->merge_from(*file_a());
+#elif DBG == 5
+  ASSERT(db->lookup_manifest_by_name(*str('m')) == 0, "C13 x");
+  db->merge_from(*file_a());
+#elif DBG == 6
+  db->merge_from(*file_a());
+  ASSERT(db->lookup_manifest_by_name(*str('m')) == A_M, "C13 x");
+  ASSERT(db->lookup_manifest_by_name(*str('n')) == 0, "C13 x");
+#endif
   WITNESS();
 }
